@@ -51,12 +51,44 @@ def replay():
     return bool(out), "; ".join(out[:5]) if out else "native couplings agree with the numerically integrated RGE"
 '''
 
+REPLAY_TAU = '''
+def replay():
+    # native: a_em below the tau mass reached from above inside one patch against an independent integration of the coupled RGEs with the lepton number switching at m_tau
+    from scipy.integrate import solve_ivp
+    from eko import beta, constants
+    from eko.couplings import Couplings
+    from eko.quantities.couplings import CouplingEvolutionMethod, CouplingsInfo
+    from eko.quantities.heavy_quarks import QuarkMassScheme
+    out = []
+    for order in ((2, 1), (3, 2)):
+        for q_ref, q_to in ((2.0, 1.55), (1.6, 2.5)):
+            ci = CouplingsInfo.from_dict(dict(alphas=0.30, alphaem=0.00781, ref=(q_ref, 4), em_running=True))
+            sc = Couplings(ci, order=order, method=CouplingEvolutionMethod.EXACT, masses=[1.2**2, 4.5**2, 173.0**2], hqm_scheme=QuarkMassScheme.POLE, thresholds_ratios=[1.0, 1.0, 1.0])
+            got = sc.a(q_to**2, 4)
+            def rhs(t, y, nl):
+                a_s, a_em = y
+                bs = sum(beta.beta_qcd((2 + k, 0), 4) * a_s**k for k in range(order[0])) + a_em * beta.beta_qcd((2, 1), 4)
+                be = sum(beta.beta_qed((0, 2 + k), 4, nl) * a_em**k for k in range(order[1])) + a_s * beta.beta_qed((1, 2), 4, nl)
+                return [-a_s**2 * bs, -a_em**2 * be]
+            y, t = [0.30 / 4 / np.pi, 0.00781 / 4 / np.pi], np.log(q_ref**2)
+            stops = [np.log(constants.MTAU**2)] if min(q_ref, q_to) < constants.MTAU < max(q_ref, q_to) else []
+            for t1 in stops + [np.log(q_to**2)]:
+                mid = np.exp((t + t1) / 2)
+                nl = 3 if mid > constants.MTAU**2 else 2
+                y = solve_ivp(rhs, (t, t1), y, args=(nl,), method="DOP853", rtol=1e-11, atol=1e-14).y[:, -1]
+                t = t1
+            if abs(got[1] / y[1] - 1) > 2e-6 or abs(got[0] / y[0] - 1) > 2e-6:
+                out.append(f"order {order}, {q_ref} GeV -> {q_to} GeV (nf=4): a_em = {got[1]:.9g} but the RGE with the lepton number switching at the tau mass gives {y[1]:.9g} (relative {got[1]/y[1]-1:+.2e}); a_s relative {got[0]/y[0]-1:+.2e}")
+    return bool(out), "; ".join(out[:3]) if out else "couplings across the tau mass agree with an independent integration"
+'''
+
 
 def run(chk):
     from eko import couplings, beta
     from eko.couplings import Couplings
 
     rp = script(REPLAY, kind="rge_oracle")
+    rp_tau = script(REPLAY_TAU, kind="rge_oracle")
     chk.under_contract("eko.couplings:exact_lo", "eko.couplings:expanded_nlo", "eko.couplings:expanded_nnlo", "eko.couplings:expanded_n3lo", "eko.couplings:expanded_qcd",
                        "eko.couplings:expanded_qed", "eko.couplings:couplings_expanded_alphaem_running", "eko.couplings:couplings_expanded_fixed_alphaem",
                        "eko.couplings:Couplings.compute", "eko.couplings:Couplings.compute_exact_alphaem_running", "eko.couplings:Couplings.compute_exact_fixed_alphaem",
@@ -223,6 +255,53 @@ def run(chk):
                         chk.eq(f"{tag}.span", captured["span"][1], T.app("ln", s_to / s_from), fn=fn, replay=rp, goal="integrated over ln(mu2_to/mu2_from)", assumptions=[s_to > 0, s_from > 0])
     finally:
         couplings.scipy.integrate.solve_ivp = saved_ivp
+
+    # ---- the RGE that is solved on each stretch has the lepton number of that stretch: Couplings.a splits a fixed-nf segment at the tau mass ---------------------
+    # requires: compute(a, nf, nl, from, to) solves the coupled RGEs with nl leptons (clauses above).  ensures: along a fixed-nf segment the calls form a chain
+    # origin -> ... -> target whose links do not contain the tau mass in their interior and carry the number of leptons active on the link (QED orders only).
+    from eko import matchings, constants
+    MT2 = constants.MTAU**2
+    fn = "eko.couplings:Couplings.a"
+    for order in ((2, 0), (2, 1), (3, 2)):
+        for lab, ref, (q2, nfto) in (("down_across_tau", (Q(4), 4), (Q(5, 2), 4)), ("up_across_tau", (Q(5, 2), 4), (Q(10), 4)), ("above_tau", (Q(10), 4), (Q(16), 4)), ("below_tau", (Q(3), 4), (Q(5, 2), 4)),
+                                     ("down_across_tau_and_charm", (Q(100), 5), (Q(1), 3)), ("up_from_below_tau_to_bottom", (Q(5, 2), 4), (Q(1000), 5))):
+            c = object.__new__(couplings.Couplings)
+            c.order, c.method, c.alphaem_running, c.decoupled_running, c.cache = order, "expanded", True, False, {}
+            c.a_ref = np.array([T.var("as_ref"), T.var("aem_ref")], dtype=object)
+            c.thresholds_ratios = [Q(1), Q(1), Q(1)]
+            c.atlas = matchings.Atlas([Q(2), Q(81, 4), Q(30000)], ref)
+            c.hqm_scheme = "POLE"
+            calls = []
+            c.compute = lambda a_ref, nf_, nl_, sfrom, sto, calls=calls: (calls.append((nf_, nl_, sfrom, sto)), np.array([T.app("compute_as", T.lift(a_ref[0]), T.lift(sfrom), T.lift(sto), T.lift(nl_)), a_ref[1]], dtype=object))[1]
+            tag = f"C15.lepton_patches[order={order},{lab}]"
+            try:
+                c.a(q2, nfto)
+            except Exception as e:  # noqa: BLE001
+                chk.fail(f"{tag}.no_exception", f"{type(e).__name__}: {e}", fn=fn, replay=rp_tau)
+                continue
+            bad = []
+            # group the calls by flavour patch: inside one patch they must chain and respect the tau mass
+            cur_nf, chain = None, []
+            groups = []
+            for nf_, nl_, sf_, st_ in calls:
+                if nf_ != cur_nf:
+                    chain = []
+                    groups.append((nf_, chain))
+                    cur_nf = nf_
+                chain.append((nl_, sf_, st_))
+            for nf_, chain in groups:
+                for i, (nl_, sf_, st_) in enumerate(chain):
+                    lo, hi = (sf_, st_) if sf_ <= st_ else (st_, sf_)
+                    if i and chain[i - 1][2] != sf_:
+                        bad.append(f"nf={nf_}: stretch {i} starts at {sf_}, the previous one ended at {chain[i-1][2]}")
+                    if order[1] != 0:
+                        if lo < MT2 < hi:
+                            bad.append(f"nf={nf_}: one RGE solve from {sf_} to {st_} across the tau mass (m_tau^2 = {float(MT2):.4f}) with nl = {nl_}")
+                        want_nl = 3 if lo >= MT2 else 2
+                        if not (lo < MT2 < hi) and nl_ != want_nl:
+                            bad.append(f"nf={nf_}: stretch {sf_} -> {st_} solved with nl = {nl_}, {want_nl} leptons are active there")
+            chk.ground(f"{tag}.lepton_number_of_each_stretch", not bad, fn=fn, replay=rp_tau, backend="symbolic-execution",
+                       goal="every RGE solve along the path stays on one side of the tau mass and uses the number of leptons active there (QED orders); the stretches chain", detail="; ".join(bad) or None)
     chk.extra["exhaustive"] = True
 
 
